@@ -173,6 +173,13 @@ def run(idx: ProgramIndex, rep: Report, tier: str, selftest: bool = True):
     ]
     rule_left(idx, rep)
     rule_orientation(idx, rep)
+    # ---------------------------------------------------------------- T
+    # the iterative route: a CG solve either meets cg_tolerance (measured on the true residual) or warns
+    from .c08 import stopping_rules_for
+
+    rep.rule("C04.T", "the CG route stops on the true residual norm, under the tolerance test, and warns otherwise", floor=5)
+    stopping_rules_for(idx, rep, PROP, "C04.T")
+
     if selftest:
         from ..selftest import run_fixtures
 
